@@ -34,7 +34,8 @@ class qty_loader(object):
         qty = Units.eval_qty(value)
         if not isinstance(qty, Units.Quantity):
             if kind_units is not None:
-                return Units.with_units(qty, kind_units)
+                # not with_units(): its zero shortcut would return a bare 0
+                return qty*Units.eval_qty(kind_units)
             else:
                 raise InputDataError(
                     'Cannot determine units of quantity: %r' % qty)
